@@ -57,6 +57,7 @@ func init() {
 		for l := 0; l < 2; l++ {
 			add(fmt.Sprintf("v%d.SetAsArray(L%d)", i, l), 'a', i, 0, l)
 			add(fmt.Sprintf("v%d=VariantFromArray(L%d)", i, l), 'A', i, 0, l)
+			add(fmt.Sprintf("v%d=NewVariant(L%d)", i, l), 'O', i, 0, l)
 		}
 		for j := 0; j < 3; j++ {
 			if i != j {
@@ -180,9 +181,8 @@ func c20Observe(c *mon.Case, s *c20State, trace []string) bool {
 			return false
 		}
 		want := s.model[i].val
-		if s.model[i].tainted && want.T == "A" {
-			continue // shares its list by Assign: not determined
-		}
+		// A variant that shares its list with another one by Assign is still observed: the harness never
+		// writes into such a list in place, and replacing the value of one side must not reach the other.
 		if !got.Same(want) {
 			what := "variant does not hold the value it was given"
 			if want.T == "A" || got.T == "A" {
@@ -221,9 +221,6 @@ func c20Observe(c *mon.Case, s *c20State, trace []string) bool {
 				c.Failf("Equals is not symmetric", "after [%s]: v%d.Equals(v%d)=%v but v%d.Equals(v%d)=%v", strings.Join(trace, "; "), i, j, eij, j, i, eji)
 				return false
 			}
-			if s.model[i].tainted || s.model[j].tainted {
-				continue
-			}
 			if want := modelEquals(s.model[i].val, s.model[j].val); want >= 0 && (want == 1) != eij {
 				c.Failf("Equals disagrees with value equality", "after [%s]: v%d=%s v%d=%s Equals=%v", strings.Join(trace, "; "), i, s.model[i].val, j, s.model[j].val, eij)
 				return false
@@ -236,7 +233,8 @@ func c20Observe(c *mon.Case, s *c20State, trace []string) bool {
 func c20Run(c *mon.Case, ops string) {
 	s := &c20State{}
 	for l := 0; l < 2; l++ {
-		n := 2 * l // L0 empty, L1 two elements
+		n := 2 * l // L0 empty, L1 two elements; both with spare capacity, as a caller's list usually has
+		s.lists[l] = make([]*variants.Variant, 0, 8)
 		for k := 0; k < n; k++ {
 			v, r := s.freshElem()
 			s.lists[l] = append(s.lists[l], r)
@@ -255,6 +253,10 @@ func c20Run(c *mon.Case, ops string) {
 				h, m := c20Host(op.arg)
 				s.real[i] = variants.NewVariant(h)
 				s.model[i] = mvar{val: m}
+			case 'O':
+				s.real[i] = variants.NewVariant(s.lists[op.arg])
+				s.model[i] = mvar{val: vArr(s.lmod[op.arg]...)}
+				arrays = true
 			case 'a', 'A':
 				if op.code == 'a' {
 					if s.real[i] == nil {
@@ -445,7 +447,7 @@ func buildC20(cfg *mon.Config) []*mon.Sub {
 			// restrict the exhaustive scope to variants v0,v1 and list L1 to keep it finite: ops touching v2/L0 appear in the random sub-check
 			var idx []byte
 			for k, op := range c20Ops {
-				if op.i == 2 || op.j == 2 || ((op.code == 'a' || op.code == 'A' || op.code == 'm' || op.code == 'p') && op.arg == 0) || (op.code == 'n' && op.arg > 3) {
+				if op.i == 2 || op.j == 2 || ((op.code == 'a' || op.code == 'A' || op.code == 'O' || op.code == 'm' || op.code == 'p') && op.arg == 0 && op.code != 'O') || (op.code == 'O' && op.arg == 1) || (op.code == 'n' && op.arg > 3) {
 					continue
 				}
 				idx = append(idx, byte(k))
@@ -512,6 +514,11 @@ func c20HostCases() []hostCase {
 		{"variant", variants.VariantFromLong(9), vLong(9)}, {"array variant", variants.VariantFromArray(l), vArr(vInt(1), vStr("a"))},
 		{"comparable struct", cmpStruct{1, 2}, Val{T: "O"}}, {"pointer", &cmpStruct{1, 2}, Val{T: "O"}},
 		{"uncomparable map", map[string]int{"a": 1}, Val{T: "O"}}, {"uncomparable slice", []int{1, 2}, Val{T: "O"}},
+		{"struct with a slice field", struct {
+			ID    int
+			Items []string
+		}{1, []string{"a"}}, Val{T: "O"}},
+		{"array of maps", [1]map[string]int{{"a": 1}}, Val{T: "O"}},
 	}
 	return hc
 }
